@@ -8,13 +8,14 @@
 cd "$(dirname "$0")/.."
 PASS=${1:-primary}; shift
 BASE=$(cat benign/BASE)
-LIST=${@:-$(ls benign | grep '^C')}
-export VERIF_PRE_D15=1 VERIF_NO_CORPUS=1
+LIST=${@:-$(ls benign | grep '^[CB]')}
 for p in $LIST; do
   d=benign/$p; [ -f $d/patch.diff ] || continue
+  # B01..B05 (second round: C++ text layout) were written against a later commit (benign/<name>/base) that has the D15 fix
+  if [ -f $d/base ]; then BASE=$(cat $d/base); unset VERIF_PRE_D15 VERIF_NO_CORPUS; else BASE=$(cat benign/BASE); export VERIF_PRE_D15=1 VERIF_NO_CORPUS=1; fi
   files=$(grep '^diff --git' $d/patch.diff | sed 's/.* b\///' | tr '\n' ' ')
   ids=""
-  if [ $PASS = primary ]; then ids=$p; else
+  if [ $PASS = primary ] && [ "${p:0:1}" = C ]; then ids=$p; else
     for f in $files; do case $f in
       py/formak/python.py) ids="$ids C01 C03 C04 C05 C06 C08 C09 C13 C14 C15 C16 C17 C18 C10 C11";;
       py/formak/cpp.py|py/formak/ast_fragments.py|py/formak/ast_tools.py|py/formak/templates/*|cpp/include/*) ids="$ids C02 C06 C07 C08 C09 C12 C13 C14 C15";;
@@ -26,6 +27,7 @@ for p in $LIST; do
       py/formak/reference_models/*) ids="$ids C19";;
     esac; done
     ids=$(echo $ids | tr ' ' '\n' | sort -u | grep -v "^$p$" | tr '\n' ' ')
+    [ "${p:0:1}" = B ] && ids="C02 C06 C07 C08 C09 C10 C11 C12 C13 C14 C15"
   fi
   W=$(mktemp -d /tmp/formak_ben.XXXXXX); OUT=$W/out
   git -C /repo worktree add -q --detach $W/repo $BASE || exit 2
